@@ -312,13 +312,13 @@ CHECKS = {
     'C15': ('Lean 4 proof: caches that remember the request of every generated task: invariant (every cached task records '
             'the request it was generated from; ids fresh; names immutable; cache append-only) preserved along every '
             'history; identical requests hit the cache, a different request always gets a task of its own; worklist '
-            'closure nodup/sound/complete; unique-name check <=> Nodup + differential correspondence through '
+            'closure nodup/sound/closed/complete for any dependency relation (cycles included: invariant + finite measure); unique-name check <=> Nodup + differential correspondence through '
             'Use/UseRun/RunTaskFactory with behaviour probes (every generated task is executed)',
             'For every history of Use.get_task / RunTaskFactory.make / new factories / base tasks (history_good): '
             'task_runs_its_own_request (the task returned records exactly its own request), same_request_same_task '
             '(in any later state), different_request_not_shared (two calls returning the same task made the same '
-            'request), make_runs_its_own_request; close_nodup / close_sound / '
-            'close_complete for close_dependency_graph and duplicate_names_rejected for check_unique_task_names; '
+            'request), make_runs_its_own_request; close_nodup / close_sound / close_closed / '
+            'close_complete (unbounded reachability, given more rounds than tasks) for close_dependency_graph and duplicate_names_rejected for check_unique_task_names; '
             'c15_pinned_refuted keeps the pinned name-only cache (A17) refuted. Tied to the code by generated call '
             'histories whose returned tasks are compared by identity class and executed on a prepared environment.',
             'Trusted: Lean kernel + standard axioms; det_hash injective; tasks and functions compared by identity; '
